@@ -513,6 +513,65 @@ mod proofs {
     sep_sound(2, 3);
   }
 
+  /// concrete kind layout on both sides, symbolic *texts* of the named leaves, symbolic
+  /// strictness: the control flow of the alignment then depends on few symbolic bits
+  fn layout_sound(goal_kinds: &[u16], cand_kinds: &[u16]) {
+    let m = goal_kinds.len();
+    let k = cand_kinds.len();
+    let gv = [G::T, G::T, G::T];
+    let s: u8 = kani::any();
+    kani::assume(s < 5);
+    let mut goals = [Leaf { kind: K_IDENT, named: true, text: b'x' }; KMAX];
+    let mut cands = goals;
+    let mut i = 0;
+    while i < KMAX {
+      if i < m {
+        let kd = goal_kinds[i];
+        let named = kind_is_named(kd);
+        goals[i] = Leaf { kind: kd, named, text: if named { if kani::any() { b'x' } else { b'y' } } else { anon_text(kd) } };
+      }
+      if i < k {
+        let kd = cand_kinds[i];
+        let named = kind_is_named(kd);
+        cands[i] = Leaf { kind: kd, named, text: if named { if kani::any() { b'x' } else { b'y' } } else { anon_text(kd) } };
+      }
+      i += 1;
+    }
+    let gl = goal_list(&gv[..m], &goals, 2);
+    let mut src = [b' '; 2 * KMAX];
+    let d = flat_tree_w(&cands, k, K_CALL, &mut src, 2);
+    let g = mk_grep(as_str(&src, 2 * k), d);
+    let got = match_children_end(&gl, &g.root(), &strictness_of(s)).is_some();
+    let want = legal(&gv[..m], &goals, m, &cands, k, s);
+    kani::cover!(got);
+    kani::cover!(!got);
+    if got {
+      assert!(want, "reported match has no legal alignment");
+    }
+    std::mem::forget(gl);
+    std::mem::forget(g);
+  }
+  macro_rules! layout_harness {
+    ($name:ident, [$($g:expr),*], [$($c:expr),*]) => {
+      #[kani::proof]
+      #[kani::unwind(8)]
+      fn $name() {
+        layout_sound(&[$($g),*], &[$($c),*]);
+      }
+    };
+  }
+  // `x ,` against `x y`: a trailing separator in the pattern, an extra named sibling in the code
+  layout_harness!(c03_lay_sep_vs_two_named, [K_IDENT, K_PUNCT_A], [K_IDENT, K_IDENT]);
+  // `x ,` against `x , y`
+  layout_harness!(c03_lay_sep_vs_sep_named, [K_IDENT, K_PUNCT_A], [K_IDENT, K_PUNCT_A, K_IDENT]);
+  // `x y` against `x // y`
+  layout_harness!(c03_lay_two_vs_comment_between, [K_IDENT, K_IDENT], [K_IDENT, K_COMMENT, K_IDENT]);
+  // `x` against `x ,` and `, x`
+  layout_harness!(c03_lay_one_vs_trailing_tok, [K_IDENT], [K_IDENT, K_PUNCT_A]);
+  layout_harness!(c03_lay_one_vs_leading_tok, [K_IDENT], [K_PUNCT_A, K_IDENT]);
+  // `, x` against `x`
+  layout_harness!(c03_lay_tok_first_vs_one, [K_PUNCT_A, K_IDENT], [K_IDENT]);
+
   macro_rules! tt_harness {
     ($name:ident, [$($g:expr),*], $k:expr, $s:expr) => {
       #[kani::proof]
